@@ -403,12 +403,15 @@ static bool normal_or_zero(T v) { return v == 0 || std::isnormal(v); }
 // C05 operand classes: wide log-uniform, moderate, and "near": operands that share a dimension set are
 // nearly equal (cp ~ cv, total ~ static) and dimensionless ones are near one (gamma -> 1, Mach -> 1), which is
 // where relations that subtract lose their accuracy.
-static const char* kC05Class[3] = {"wide", "moderate", "near-equal/near-one"};
+static const char* kC05Class[4] = {"wide", "moderate", "near-equal/near-one", "range-ends"};
 static void fill_c05(Buf& b, const std::vector<Operand>& in, Rng& rng, int cls, int e) {
   if (cls == 0) {
     fill_random(b, in, rng, -e, e, false);
   } else if (cls == 1) {
     fill_random(b, in, rng, -10, 10, false);
+  } else if (cls == 3) {
+    // magnitudes over (almost) the whole exponent range of T: only judged when the forward result is a normal number
+    fill_random(b, in, rng, Num<T>::emin + 8, Num<T>::emax - 8, false);
   } else {
     std::map<std::array<int, 7>, T> scale;
     for (size_t k = 0; k < in.size(); ++k) {
@@ -722,8 +725,15 @@ static void c05_operator_driver(Reporter& R, const Rel& r) {
     Buf b, b2;
     T c[kMaxN], back[kMaxN];
     for (int rep = 0; rep < reps; ++rep) {
-      fill_c05(b, r.in, rng, rep % 3, e);
+      const int cls = g_args->n("range_ends", 0) ? rep % 4 : rep % 3;
+      fill_c05(b, r.in, rng, cls, e);
       r.call(b.p, c, b.sp);
+      if (cls == 3) {
+        bool usable = true;
+        for (int i = 0; i < r.out.n; ++i) usable = usable && std::isnormal(c[i]) && std::fabs(std::ilogb(c[i])) < Num<T>::emax - 8;
+        if (!usable) { R.count("c05_range_ends_skipped"); continue; }
+        R.count("c05_range_ends_judged");
+      }
       for (int i = 0; i < r.out.n; ++i) b2.v[0][i] = c[i];
       for (int i = 0; i < r.in[1].n; ++i) b2.v[1][i] = b.v[1][i];
       r.op_inverse(b2.p, back, nullptr);
@@ -757,8 +767,15 @@ static void c05_pair_driver(Reporter& R, const Pair& p) {
     Buf b, b2;
     T c[kMaxN], back[kMaxN];
     for (int rep = 0; rep < reps; ++rep) {
-      fill_c05(b, p.in, rng, rep % 3, e);
+      const int cls = g_args->n("range_ends", 0) ? rep % 4 : rep % 3;
+      fill_c05(b, p.in, rng, cls, e);
       p.forward(b.p, c, b.sp);
+      if (cls == 3) {
+        bool usable = true;
+        for (int i = 0; i < p.mid.n; ++i) usable = usable && std::isnormal(c[i]) && std::fabs(std::ilogb(c[i])) < Num<T>::emax - 8;
+        if (!usable) { R.count("c05_range_ends_skipped"); continue; }
+        R.count("c05_range_ends_judged");
+      }
       for (int i = 0; i < p.mid.n; ++i) b2.v[0][i] = c[i];
       for (int a = 0; a < nargs; ++a) for (int i = 0; i < p.in[a].n; ++i) b2.v[a + 1][i] = b.v[a][i];
       p.inverse(b2.p, back, nullptr);
